@@ -61,6 +61,9 @@ pub fn alphabet_for(t: usize) -> Vec<Rpc> {
         Rpc::BatchDeleteFilter { t, flt: Flt::Not(Box::new(Flt::Exact("k".into(), "zzz".into()))), ns: "".into() },
         Rpc::BatchDeleteFilter { t, flt: Flt::Exact("__tenant_idx__".into(), other_idx.into()), ns: "".into() },
         Rpc::Flush { t },
+        // a tenant-local id with bits above 2^32: added to the tenant's base it would land in the
+        // NEXT tenant's id range (local id 1 of the other tenant); must be refused as out of range
+        Rpc::Insert { t, item: Item { id: (1u64 << 32) | 1, v: v2.to_vec(), m: vec![("k".to_string(), me.to_string())], ns: "".into() } },
     ]
 }
 
